@@ -31,10 +31,10 @@ P = {
    text=("Byte level, both directions, for ftyp, stts, ctts, stss, stsc, stsz, stco, co64, mvhd, tkhd, mdhd, mfhd, mehd, trex, tfdt, tfhd, vmhd, smhd, the box header (32/64-bit) and the FullBox header: write_box is proved to append exactly the bytes of an "
          "independently generated reference encoder and to return box_size(); read_box to consume exactly the box and return a value satisfying the layout predicate. Size level for every other box of the muxer's tree and emsg "
          "(box_size() == ISO length, write_box advances by exactly that, read_box consumes exactly the declared size for both header forms, trailing bytes skipped), also for elst, edts, trun, traf, moof, mvex under their wire predicates; data box byte-exact both ways. "
-         "Every box type is proved to report its own BoxType. Decoders of stbl, minf, mdia, trak, moov, stsd, avc1, avcC (incl. NAL units), mp4a (esds selection), the AudioSpecificConfig and the descriptor length coding, data / ilst / meta / udta: functional, against forward folds over the sibling chain. "
+         "Every box type is proved to report its own BoxType. Decoders of stbl, minf, mdia, trak, moov, moof, traf, trun, stsd, avc1, avcC (incl. NAL units), hev1, the hvcC fixed header, vp09, vpcC, tx3g, mp4a (esds selection), the AudioSpecificConfig and the descriptor length coding, data / ilst / meta / udta: functional, against layout predicates and forward folds over the sibling chain; vpcC and avcC encoders byte-exact with proved round trips. "
          "The spec-level round trip X_at(wr(d, p, X_bytes(b)), p, b) is proved for the 10 fixed-layout boxes, the 7 table boxes and ftyp (generated / hand-written lemmas), with decode-is-a-function lemmas for the tables."),
    note=TRUST + " Domain: box_size <= u32::MAX (D-20). Round trip not mechanised for the size-level boxes. "
-        "Not under functional contract: hdlr name / url location strings, hvcC/vpcC/tx3g field values and the esds descriptor nesting (sizes only), trun/elst/emsg decoders (consumption only), encoders of ilst / meta / udta (HashMap iteration)."),
+        "Not under functional contract: hdlr name / url location strings, the hvcC NAL arrays and the esds descriptor nesting (sizes only), elst/emsg decoders (consumption only), encoders of hev1 / vp09 / tx3g / esds field values (sizes only), encoders of ilst / meta / udta (HashMap iteration)."),
  'C05': dict(claim=True, cat='proof', technique='same obligations as C04; the specs are generated from the ISO syntax tables with clause numbers (tool/gen_layouts.py, tool/gen_tables.py) or written from them; Kani full-domain harnesses for bit-level helpers',
    text="Conformance of the boxes listed under C04 (byte level), of the descriptor length coding (size_of_length, Kani all u32), the AAC object-type escape coding (Verus + Kani all 2^16), the box-type registry (Kani: independent table) and BoxHeader::read (Kani, all 16-byte inputs: complete) to layouts written from ISO/IEC 14496-12/-14/-1, proved separately for encoder and decoder so that a symmetric mistake fails on both.",
    note=TRUST + " Bit-packed codec records (avcC/hvcC/vpcC field values, esds descriptor contents beyond their lengths) are not covered."),
@@ -73,7 +73,7 @@ P = {
          "object type / frequency index / channel configuration codes; ftyp, mdhd (incl. the ISO-639 packing, proved inverse on all 15-bit codes), tkhd encode/decode byte-exactly; Mp4Reader brand/timescale accessors return the decoded fields; durations are converted as specified. "
          "The reader side of the configuration is proved from the file bytes: stsd selects the sample entry, avc1 width/height and the avcC record (profile bytes, every SPS/PPS verbatim) are the decoding of the child found on the sibling chain; the AudioSpecificConfig encoder/decoder pair is byte-exact with a proved round-trip lemma on the encodable domain. "
          "the avcC encoder is byte-exact against a reference encoder whose output is proved (lemma_avcc_roundtrip) to decode to the same record. "
-         "Level 'other': the esds descriptor nesting, hvcC/vpcC/tx3g contents are not under functional contract, and the end-to-end composition is not one lemma."),
+         "hev1 / hvcC header / vp09 / vpcC / tx3g entries are decoded against layout predicates as well. Level 'other': the esds descriptor nesting and the hev1 / vp09 / tx3g encoders' field values are not under functional contract, and the end-to-end composition is not one lemma."),
    note=TRUST),
  'C15': dict(claim=True, cat='proof', technique='Verus frame conditions + postconditions that are functions of (tables, stream data, arguments)',
    text="Reader calls leave tracks/moov/ftyp/size and the stream content unchanged (&mut self frame proved) and their results are specified purely in terms of the tables, the stream data and the arguments (never the stream position), with uniqueness lemmas, so any call history returns what a fresh reader returns. Muxer: every step's result is a function of the previous abstract state and the arguments (C01).",
